@@ -29,6 +29,8 @@ case "$mode" in
         n=${mode#quit:}
         head -c "$n" > "$R/pager.received"
         echo "- P QUIT pid=$$ after=$n" >> "$R/events.log"
+        # 1000+n: die of signal n
+        if [ "${code:-0}" -ge 1000 ]; then kill -s "$((code - 1000))" $$; sleep 1; fi
         exit "${code:-0}"
         ;;
     stall)
